@@ -49,10 +49,16 @@ def affirmative(entry):
     return ['b', True] if entry['polarity'] else ['b', False]
 
 
+TRUE_TEXT = ('yes', 'y', 'true', '1', 'on')
+FALSE_TEXT = ('no', 'n', 'false', '0', 'off')
+
+
 def gates_consulted(year, run):
-    """catalogued gates a reader line of a catalogued reader form read with the affirmative value -> {q: reader line}"""
+    """catalogued gates that a line of a catalogued reader form consulted while the answer the user SUPPLIED (the text
+    in the store at the end, read independently of habutax) is the unsupported one -> {q: reader line}"""
     cat = gate_catalogue(year)['gates']
     out = {}
+    texts = getattr(run, 'input_texts', None) or {}
     for e in run.rec.events:
         if e[0] == 'RI' and e[3][0] == 'ok':
             k = gate_key(e[2])
@@ -60,7 +66,15 @@ def gates_consulted(year, run):
             if ent is None or e[1] is None:
                 continue
             reader_form = e[1].split('.')[0].split(':')[0]
-            if reader_form in ent['readers'] and e[3][1] == affirmative(ent):
+            if reader_form not in ent['readers']:
+                continue
+            t = texts.get(e[2])
+            if t is not None:
+                said = t.strip().lower()
+                unsupported = said in (TRUE_TEXT if ent['polarity'] else FALSE_TEXT)
+            else:
+                unsupported = e[3][1] == affirmative(ent)
+            if unsupported:
                 out.setdefault(e[2], e[1])
     return out
 
@@ -74,6 +88,41 @@ def gates_read(year, run):
             if ent is not None and e[1].split('.')[0].split(':')[0] in ent['readers']:
                 out.setdefault(e[2], e[1])
     return out
+
+
+def resolve_history(pdict, basel, q, text, sched, rng):
+    """the same Solver is asked twice: first with the gate declared and one unrelated needed input missing (fails),
+    then again after that input was supplied.  Returns a run-like object whose outcome is that of the SECOND solve()."""
+    from .. import seams, monitor as mon
+    from habutax import inputs as hb_inputs, forms as hb_forms, solver as hb_solver
+    per = shipped.Persona(pdict)
+    per.over = dict(per.over, **{q: text})
+    read = [e[2] for e in basel.rec.events if e[0] == 'RI' and e[3][0] == 'ok' and e[2] != q]
+    if not read:
+        return None
+    x = read[rng.randrange(len(read))]
+    names = [n for n in basel.supplied if n != x]
+    from .. import gen
+    path = os.path.join(simrun.scratch_dir(), 'c09_resolve.ini')
+    with open(path, 'w', newline='') as f:
+        f.write(gen.file_text([(n, per.text(n)) for n in names]))
+    store = hb_inputs.InputStore(path)
+    m = mon.Monitor(supplied=names)
+    rec = seams.Recorder(budget=40000, sched_seed=sched[0], period=sched[1], monitor=m)
+    run = shipped.ShippedRun()
+    run.rec, run.monitor = rec, m
+    with seams.installed(rec), core.cpu_alarm(30.0):
+        s = hb_solver.Solver(store, hb_forms.available_forms[pdict['year']], prompt=None)
+        try:
+            s.solve(list(pdict['forms']))
+            store[x] = per.text(x)
+            ok = s.solve(list(pdict['forms']))
+            run.outcome = 'solved' if ok else 'failed'
+        except Exception as e:
+            run.outcome = 'abort'
+            run.exc = (type(e).__name__, str(e)[:200])
+    run.input_texts = {f'{sec}.{k}': v for (sec, k), v in simrun.config_items(store.config).items()}
+    return run
 
 
 def eval_gates(case, acc=None):
@@ -98,8 +147,24 @@ def eval_gates(case, acc=None):
         text = 'yes' if ent['polarity'] else 'no'
         sched = (rng.randrange(1 << 32), rng.pick([0, 1, 3]))
         names = [n for n in basel.supplied if rng.chance(0.5)] if rng.chance(0.7) else list(case['file'])
-        run = shipped.execute(case['persona'], file_names=names, sched=sched, prompt=True, layout=case.get('layout'),
-                              overrides={q: text})
+        how = rng.pick(['fresh', 'fresh', 'reuse', 'resolve'])
+        if how == 'fresh':
+            run = shipped.execute(case['persona'], file_names=names, sched=sched, prompt=True, layout=case.get('layout'),
+                                  overrides={q: text})
+        elif how == 'reuse':
+            # the declaration arrives on the SAME InputStore after a first solve (store reused through its mapping API)
+            first = shipped.execute(case['persona'], file_names=list(basel.supplied), sched=sched, prompt=True)
+            try:
+                first.store[q] = text
+            except Exception:
+                continue
+            run = shipped.execute(case['persona'], sched=sched, prompt=True, store=first.store, overrides={q: text})
+        else:
+            run = resolve_history(case['persona'], basel, q, text, sched, rng)
+            if run is None:
+                continue
+        if acc is not None:
+            acc.count('fault:gate-declared-' + how)
         consulted = gates_consulted(year, run)
         if q in consulted and run.outcome == 'solved':
             fs.append(F(ID, 'C09.gate', f'{year}:{gate_key(q)}',
